@@ -38,14 +38,14 @@ fn observer(a1: u64, _a2: u64, _a3: u64, _a4: u64, _a5: u64) -> u64 {
 }
 
 fn worker_prog(addr: u64, width: u8, addend: u64, iters: u32, observe: bool) -> Vec<u8> {
-    worker_prog_regs(addr, width, addend, iters, observe, 6, 7, 0)
+    worker_prog_regs(addr, width, addend, iters, observe, 6, 7, 0, 1)
 }
 
 /// `base`/`src` registers and the offset field vary per thread: every (base register, displacement
 /// encoding) pair is a different x86 instruction encoding under the JIT. The loop counter lives in
 /// a callee-saved register distinct from both; base and source are reloaded every iteration because
 /// the observer call may clobber r1-r5.
-fn worker_prog_regs(addr: u64, width: u8, addend: u64, iters: u32, observe: bool, base: u8, src: u8, off: i16) -> Vec<u8> {
+fn worker_prog_regs(addr: u64, width: u8, addend: u64, iters: u32, observe: bool, base: u8, src: u8, off: i16, unroll: u32) -> Vec<u8> {
     let opc = if width == 4 { XADD_W } else { XADD_DW };
     let counter = (6..=9u8).find(|r| *r != base && *r != src).unwrap();
     let b = addr.wrapping_sub(off as i64 as u64);
@@ -55,7 +55,9 @@ fn worker_prog_regs(addr: u64, width: u8, addend: u64, iters: u32, observe: bool
     v.push(Insn::new(0, 0, 0, 0, (b >> 32) as u32 as i32));
     v.push(Insn::new(LDDW, src, 0, 0, addend as u32 as i32));
     v.push(Insn::new(0, 0, 0, 0, (addend >> 32) as u32 as i32));
-    v.push(Insn::new(opc, base, src, off, 0));
+    for _ in 0..unroll.max(1) {
+        v.push(Insn::new(opc, base, src, off, 0));
+    }
     if observe {
         v.push(Insn::new(LDDW, 1, 0, 0, addr as u32 as i32));
         v.push(Insn::new(0, 0, 0, 0, (addr >> 32) as u32 as i32));
@@ -83,6 +85,9 @@ struct RunSpec {
     /// per thread: how the engine reaches the word: 0 = registered allowed memory (no-data VM),
     /// 1 = the packet slice covers the buffer (raw VM), 2 = the metadata buffer IS the buffer
     paths: Vec<u8>,
+    /// the atomic add is repeated this many times IN A ROW in every iteration (identical
+    /// instructions back to back: run-length peepholes in a compiler must still add every addend)
+    unroll: u32,
 }
 
 struct RunOut {
@@ -104,7 +109,7 @@ fn execute_run(spec: &RunSpec, buf: &GuardBuf) -> RunOut {
     }
     OBS_WIDTH.store(spec.width as u32, Ordering::Relaxed);
     let barrier = Arc::new(Barrier::new(spec.nthreads));
-    let progs: Vec<Vec<u8>> = (0..spec.nthreads).map(|t| worker_prog_regs(word, spec.width, spec.addends[t], spec.iters, true, spec.regs[t].0, spec.regs[t].1, spec.regs[t].2)).collect();
+    let progs: Vec<Vec<u8>> = (0..spec.nthreads).map(|t| worker_prog_regs(word, spec.width, spec.addends[t], spec.iters, true, spec.regs[t].0, spec.regs[t].1, spec.regs[t].2, spec.unroll)).collect();
     let (buf_ptr, buf_len) = (base, buf.len());
     let mut outs: Vec<(bool, Vec<u64>)> = Vec::new();
     std::thread::scope(|s| {
@@ -179,7 +184,7 @@ struct Verdict {
 
 fn judge(spec: &RunSpec, out: &RunOut) -> Verdict {
     let mask = if spec.width == 4 { 0xffff_ffffu64 } else { u64::MAX };
-    let sum: u64 = spec.addends.iter().fold(0u64, |a, x| a.wrapping_add(x.wrapping_mul(spec.iters as u64)));
+    let sum: u64 = spec.addends.iter().fold(0u64, |a, x| a.wrapping_add(x.wrapping_mul(spec.iters as u64).wrapping_mul(spec.unroll as u64)));
     let want = spec.init.wrapping_add(sum) & mask;
     let mut v = Verdict { bad: None, interleaved: 0, observations: 0, distinct_values: 0 };
     let mix = {
@@ -213,7 +218,7 @@ fn judge(spec: &RunSpec, out: &RunOut) -> Verdict {
         if spec.monotone {
             let mut prev = spec.init;
             for (i, o) in obs.iter().enumerate() {
-                let own = spec.init + spec.addends[t] * (i as u64 + 1);
+                let own = spec.init + spec.addends[t] * spec.unroll as u64 * (i as u64 + 1);
                 if *o < prev {
                     v.bad = Some((format!("non-monotonic:w{}:{mix}", spec.width * 8), format!("thread {t}: observation #{i} = {o:#x} is smaller than an earlier one {prev:#x} although all addends are positive")));
                     return v;
@@ -226,7 +231,7 @@ fn judge(spec: &RunSpec, out: &RunOut) -> Verdict {
                     v.bad = Some((format!("above-final:w{}:{mix}", spec.width * 8), format!("thread {t}: observation {o:#x} exceeds the final total {want:#x}")));
                     return v;
                 }
-                if i > 0 && o - prev > spec.addends[t] {
+                if i > 0 && o - prev > spec.addends[t] * spec.unroll as u64 {
                     v.interleaved += 1;
                 }
                 prev = *o;
@@ -284,7 +289,9 @@ fn gen_spec(rng: &mut Rng, q: bool, engines_avail: &[Engine], small: bool) -> Ru
     {
         let pstyle = rng.below(4);
         let paths: Vec<u8> = (0..nthreads).map(|_| if pstyle < 3 { pstyle as u8 } else { rng.below(3) as u8 }).collect();
-        RunSpec { width, nthreads, iters, init: if width == 4 { init & 0xffff_ffff } else { init }, addends, engines, monotone, regs, paths }
+        let unroll: u32 = if !small && rng.chance(1, 4) { *rng.pick(&[2u32, 3, 64, 127, 128, 129, 200, 255, 256, 257, 300]) } else { 1 };
+        let iters = (iters / unroll).max(3);
+        RunSpec { width, nthreads, iters, init: if width == 4 { init & 0xffff_ffff } else { init }, addends, engines, monotone, regs, paths, unroll }
     }
 }
 
@@ -391,7 +398,7 @@ pub fn run(a: &Args, rep: &mut Report) {
             s.iters /= 2;
         }
         rep.case(Some(crate::util::fnv(format!("{s:?}").as_bytes())));
-        let w = json!({"kind": "xadd-run", "width": s.width, "threads": s.nthreads, "iters": s.iters, "init": format!("{:#x}", s.init), "addends": s.addends.iter().map(|a| format!("{a:#x}")).collect::<Vec<_>>(), "engines": s.engines.iter().map(|e| e.name()).collect::<Vec<_>>(), "paths": s.paths, "base_src_off": s.regs.iter().map(|r| format!("{:?}", r)).collect::<Vec<_>>(), "prog": hex(&worker_prog(buf.addr() + 16, s.width, s.addends[0], s.iters, true))});
+        let w = json!({"kind": "xadd-run", "width": s.width, "threads": s.nthreads, "iters": s.iters, "unroll": s.unroll, "init": format!("{:#x}", s.init), "addends": s.addends.iter().map(|a| format!("{a:#x}")).collect::<Vec<_>>(), "engines": s.engines.iter().map(|e| e.name()).collect::<Vec<_>>(), "paths": s.paths, "base_src_off": s.regs.iter().map(|r| format!("{:?}", r)).collect::<Vec<_>>(), "prog": hex(&worker_prog(buf.addr() + 16, s.width, s.addends[0], s.iters, true))});
         let mixname = {
             let mut e: Vec<&str> = s.engines.iter().map(|e| e.name()).collect();
             e.sort();
@@ -407,7 +414,8 @@ pub fn run(a: &Args, rep: &mut Report) {
             rep.set("base_registers", format!("r{}", r.0));
             rep.set("offset_fields", format!("{}", r.2));
         }
-        rep.add("atomic_adds", s.nthreads as u64 * s.iters as u64);
+        rep.add("atomic_adds", s.nthreads as u64 * s.iters as u64 * s.unroll as u64);
+        rep.set("xadds_in_a_row", format!("{}", s.unroll));
         match o {
             Err(e) if e.starts_with("inconclusive") => rep.inconclusive(e.clone()),
             Err(e) => rep.violation(&format!("C18:{e}:{mixname}"), format!("concurrent run ended with {e}"), w),
